@@ -116,7 +116,7 @@ type PreemptQuoStepObs struct {
 }
 
 type PreemptQuoStep struct {
-	Op         string             `json:"op"` // reconf | advance | usage | trigger
+	Op         string             `json:"op"` // reconf | advance | usage | trigger | hold (tryAcquirePreemption only) | done (setQuotaPreemptionState(false))
 	Queue      int                `json:"queue"`
 	Max        map[string]int64   `json:"max,omitempty"`
 	Guaranteed map[string]int64   `json:"guaranteed,omitempty"`
@@ -137,9 +137,10 @@ type PreemptQuoObs0 struct {
 }
 
 type PreemptQuoCase struct {
-	Spec  objects.VerifPreemptWorldSpec `json:"spec"`
-	Steps []PreemptQuoStep              `json:"steps"`
-	Obs   *PreemptQuoObs0               `json:"obs,omitempty"`
+	Stream string                        `json:"stream,omitempty"` // generator stream ("" = the general one, "qtime")
+	Spec   objects.VerifPreemptWorldSpec `json:"spec"`
+	Steps  []PreemptQuoStep              `json:"steps"`
+	Obs    *PreemptQuoObs0               `json:"obs,omitempty"`
 }
 
 func genPreemptQuoCase(rng *Rng) PreemptQuoCase {
@@ -315,6 +316,10 @@ func runPreemptQuoCase(c *PreemptQuoCase) {
 				w.Advance(time.Duration(s.AdvanceSec) * time.Second)
 			case "usage":
 				w.AddUsage(s.Queue, s.Res, s.Enabled)
+			case "hold":
+				so.Acquired = w.TryAcquire(s.Queue)
+			case "done":
+				w.QuotaDone(s.Queue)
 			case "trigger":
 				so.Acquired = w.TryAcquire(s.Queue)
 				if so.Acquired {
@@ -392,6 +397,10 @@ func (c *PreemptQuoCase) coq() string {
 			op = fmt.Sprintf("(QUsage %s %s %s)", coqN(uint64(s.Queue)), preemptResOf(s.Res).coq(), coqBool(s.Enabled))
 		case "trigger":
 			op = fmt.Sprintf("(QTrigger %s %s)", coqN(uint64(s.Queue)), coqBool(s.Whole))
+		case "hold":
+			op = fmt.Sprintf("(QHold %s)", coqN(uint64(s.Queue)))
+		case "done":
+			op = fmt.Sprintf("(QDone %s)", coqN(uint64(s.Queue)))
 		}
 		leaves := make([]string, len(so.Leaves))
 		for i, l := range so.Leaves {
